@@ -26,6 +26,11 @@ func runC14(c *an.Ctx) {
 	r14d(c)
 	r14e(c)
 	r14f(c)
+	// R14g: roles expanded from one iterator template have their own stores of every variable kind: a store shared
+	// between siblings lets a value set on one role (a call's return variable, a task result) appear, at user-variable
+	// rank, on a role that is neither it nor its descendant.
+	c.Rule("R14g", "roleBase.copy: Defaults, Vars and UserVars of the copy are copies, not the template's own stores", 1)
+	copiedMembers(c, "roleBase.copy", []string{"Defaults", "Vars", "UserVars"})
 }
 
 // kindOf classifies a value by the variable-kind field it was flattened from.
